@@ -572,8 +572,12 @@ impl Check for C08 {
             }
         }
         ctx.fired_n("late_connect_pair(previous delay exceeds next by the recording gap)", fam_pairs);
-        if let (Some(a), Some(b)) = (trace.iter().map(|m| m.rx_us).min(), trace.iter().map(|m| m.rx_us).max()) {
-            ctx.sim_time((b - a) as u128 * 1000);
+        // simulated time = recorded span per ECU (an ECU recorded from the epoch and one recorded in 2020 do not span 50 years)
+        for e in 0..w.ecus.len() {
+            let rx = trace.iter().filter(|m| m.ecu as usize == e).map(|m| m.rx_us);
+            if let (Some(a), Some(b)) = (rx.clone().min(), rx.max()) {
+                ctx.sim_time((b - a) as u128 * 1000);
+            }
         }
         let r = run_stage(vec![to_dlts(&trace, 0)], ctx)?;
         if r.out.len() != trace.len() {
